@@ -85,8 +85,10 @@ func (dl *datalog) openSegment(name string, id uint16, seqID uint64) (*segment, 
 	}
 
 	meta := &segmentMeta{}
-	if !f.empty() {
-		metaName := name + metaExt
+	metaName := name + metaExt
+	_, metaErr := dl.opts.FileSystem.Stat(metaName)
+	// The meta of an empty segment must be read too: the segment could have been sealed.
+	if !f.empty() || metaErr == nil {
 		if err := readGobFile(dl.opts.FileSystem, metaName, &meta); err != nil {
 			logger.Printf("error reading segment meta %d: %v", id, err)
 			// TODO: rebuild meta?
